@@ -125,7 +125,7 @@ const IBS: [usize; 3] = [1, 2, 4];
 fn hist_cases() -> u64 {
 	2 * 3 * NHL
 }
-const GRID_CASES: u64 = 5 * 3 * 3; // thing x speed x ibs
+const GRID_CASES: u64 = 7 * 3 * 3; // thing x speed x ibs
 const E2_CASES: u64 = 3;
 const E2S_CASES: u64 = 2;
 /// cancellation family: 3 clocks, every subset dropped, x waiting thing {static, streaming, paused static, paused streaming, resume_at}
@@ -419,13 +419,13 @@ fn run_hist(sr: u32, ibs: usize, letters: &[u8], ctx: &mut Ctx) {
 // ---------------------------------------------------------------------------------------------
 // scheduling grid
 
-const THINGS: [&str; 5] = ["static sound start", "streaming sound start", "volume tween start", "resume_at", "tweener modulator jump (heard through a linked volume)"];
+const THINGS: [&str; 7] = ["static sound start", "streaming sound start", "volume tween start", "resume_at", "tweener modulator jump (heard through a linked volume)", "resume_at of a paused sub-track (a sound plays on it)", "resume_at of a paused sub-track nested in another sub-track (a sound plays on it)"];
 const SPEEDS: [f64; 3] = [1.0, 2.0, 0.5];
 
 fn dec_grid(i: u64) -> (usize, f64, usize) {
-	let thing = (i % 5) as usize;
-	let speed = SPEEDS[((i / 5) % 3) as usize];
-	let ibs = IBS[((i / 15) % 3) as usize];
+	let thing = (i % 7) as usize;
+	let speed = SPEEDS[((i / 7) % 3) as usize];
+	let ibs = IBS[((i / 21) % 3) as usize];
 	(thing, speed, ibs)
 }
 
@@ -483,6 +483,7 @@ fn grid(tier: Tier, thing: usize, speed: f64, ibs: usize, ctx: &mut Ctx) {
 						let mut static_h = None;
 						let mut stream_h = None;
 						let mut tweener_h = None;
+						let mut tracks_keep: Vec<kira::track::TrackHandle> = vec![];
 						macro_rules! schedule_it {
 							() => {
 						match thing {
@@ -508,6 +509,20 @@ fn grid(tier: Tier, thing: usize, speed: f64, ibs: usize, ctx: &mut Ctx) {
 										h.pause(tw(0.0));
 										h.resume_at(StartTime::ClockTime(target), tw(0.0));
 										static_h = Some(h);
+									}
+									5 | 6 => {
+										let mut t = if thing == 6 {
+											let mut outer = m.add_sub_track(kira::track::TrackBuilder::new()).expect("track");
+											let t = outer.add_sub_track(kira::track::TrackBuilder::new()).expect("track");
+											tracks_keep.push(outer);
+											t
+										} else {
+											m.add_sub_track(kira::track::TrackBuilder::new()).expect("track")
+										};
+										static_h = Some(t.play(dc_loop(sr)).expect("play"));
+										t.pause(tw(0.0));
+										t.resume_at(StartTime::ClockTime(target), tw(0.0));
+										tracks_keep.push(t);
 									}
 									_ => {
 										// the same instant, clock-timed tween given to a tweener modulator instead of a parameter
@@ -580,7 +595,7 @@ fn grid(tier: Tier, thing: usize, speed: f64, ibs: usize, ctx: &mut Ctx) {
 						}
 						// a resume_at changes state in the right buffer; even an instant fade-in needs one more
 						// parameter update before it is audible, so its audio may begin one internal buffer later
-						let ok = if thing == 3 {
+						let ok = if thing == 3 || thing == 5 || thing == 6 {
 							match (first_audible, expected) {
 								(Some(a), Some(e)) => a >= e && a <= e + ibs,
 								(None, Some(e)) => e + ibs >= frame0,
